@@ -87,7 +87,7 @@ def run(ctx):
     res = ctx.tlc("GlobalState", {"MaxOps": 3, "Fault": "none", "EmitCases": True}, invariants=["EmitCase"], workers=1,
                   count=False)
     cases = []
-    keep = 1.0 if thorough else 0.4
+    keep = 1.0
     for i, c in enumerate(res.cases):
         if ctx.rng.random() > keep:
             continue
